@@ -46,7 +46,7 @@
 //! Note that these structures have lower priority than the rest of the rules,
 //! e.g. `` *foo`bar*baz` `` is parsed as `*foo<code>bar*baz</code>`.
 //!
-use std::cmp::min;
+use std::cmp::{max, min};
 use crate::{MarkdownIt, Node, NodeValue};
 use crate::common::sourcemap::SourcePos;
 use crate::parser::core::CoreRule;
@@ -61,6 +61,11 @@ struct PairConfig<const MARKER: char> {
 
 #[derive(Debug, Default)]
 struct OpenersBottom<const MARKER: char>([ usize; 6 ]);
+
+// Nesting depth of emphasis in a node created by this rule (1 = nothing nested inside);
+// `max_nesting` limits it, because the resulting AST is processed recursively.
+#[derive(Debug)]
+struct EmphDepth(u32);
 
 #[derive(Debug, Clone)]
 #[doc(hidden)]
@@ -147,13 +152,22 @@ fn scan_and_match_delimiters<const MARKER: char>(state: &mut InlineState) {
 
     let mut idx = state.node.children.len() - 1;
     let mut new_min_opener_idx = idx;
+    // deepest emphasis nesting among the nodes after `idx`
+    let mut inner_depth = 0;
     while idx > min_opener_idx {
         idx -= 1;
+
+        if let Some(depth) = state.node.children[idx + 1].env.get::<EmphDepth>() {
+            inner_depth = max(inner_depth, depth.0);
+        }
 
         if let Some(opener) = state.node.children[idx].cast::<EmphMarker>() {
             let mut opener = opener.clone();
             if opener.open && opener.marker == closer.marker && !is_odd_match(&opener, &closer) {
                 while closer.remaining > 0 && opener.remaining > 0 {
+                    // nesting is too deep, leave the rest as plain text
+                    if state.level + inner_depth >= state.md.max_nesting { break; }
+
                     let max_marker_len = min(3, min(opener.remaining, closer.remaining));
                     let mut matched_rule = None;
                     let fns = &state.md.env.get::<PairConfig<MARKER>>().unwrap().fns;
@@ -176,6 +190,8 @@ fn scan_and_match_delimiters<const MARKER: char>(state: &mut InlineState) {
 
                     let mut new_token = marker_fn();
                     new_token.children = state.node.children.split_off(idx + 1);
+                    inner_depth += 1;
+                    new_token.env.insert(EmphDepth(inner_depth));
 
                     // cut marker_len chars from start, i.e. "12345" -> "345"
                     let mut end_map_pos = 0;
